@@ -677,3 +677,97 @@ def grammar_forms(gram_path, depth=2):
     stats = {"roots": len(roots), "bodies": sum(per_root.values()), "texts": len(out), "truncated_rules": ex.truncated,
              "bodies_per_root": per_root}  # fmt: skip
     return out, stats
+
+
+# ---------------------------------------------------------------------------------------
+# literal alphabets and nesting depth: every NUMBER spelling in every grammar position that
+# converts a number, every pair of string-literal prefixes for adjacent literals, and every
+# nesting shape at depths 5 / 20 / 40 / 100
+
+NUMBER_ALPHABET = ["1", "0", "0.5", "1.", ".5", "1e-1", "1E3", "1_0", "1_0.0_1", "0x1", "0XfF", "0o7", "0b1", "1j", "1.5J",
+                   "1e1j", "0_0", "00", "01", "1e400", "0x", "1__0", "1_", "0b2", "1.e", "9" * 30]  # fmt: skip
+NUMBER_POSITIONS = [
+    "require[{n}] x", "require[{n}] x as y", "x = {n}", "x = -{n}", "x = {n} deg", "x = {n} @ {n}", "x = y[{n}]", "param p = {n}",
+    "require x as {n}", "record x as {n}", "terminate when x as {n}", "mutate x by {n}", "ego = new Object at {n} @ {n}",
+    "behavior B():\n    wait for {n} seconds", "behavior B():\n    do C() for {n} steps", "terminate after {n} seconds",
+    "match x:\n    case {n}:\n        pass", "match x:\n    case -{n}:\n        pass", "match x:\n    case {n} + 1j:\n        pass",
+    "match x:\n    case 1 + {n}:\n        pass", "match x:\n    case -{n} - {n}:\n        pass", "match x:\n    case {{{n}: y}}:\n        pass",
+    "match x:\n    case [{n}, *_]:\n        pass", "match x:\n    case A(b={n}):\n        pass",
+]  # fmt: skip
+STRING_PREFIXES = ["", "b", "r", "u", "f", "rb", "br", "rf", "fr", "B", "F", "Rb", "bR", "U"]
+STRING_POSITIONS = [
+    'x = {a}"a" {b}"b"', "x = {a}'a' {b}'''b'''", 'x = ({a}"a"\n     {b}"b")', 'x = f({a}"a" {b}"b", c)', 'x = {a}"a" {b}"b" {a}"c"',
+    'ego = new Object with name {a}"a" {b}"b"', 'require x as {a}"a"', 'param {a}"p" = 1', 'x = y[{a}"a" {b}"b"]',
+    'behavior B():\n    {a}"doc" {b}"string"\n    wait',
+]  # fmt: skip
+NESTING_DEPTHS = (5, 20, 40, 100)
+NESTING_SHAPES = {
+    "paren": lambda d: "(" * d + "x" + ")" * d,
+    "list": lambda d: "[" * d + "x" + "]" * d,
+    "set": lambda d: "{" * d + "x" + "}" * d,
+    "dict": lambda d: "{1:" * d + "x" + "}" * d,
+    "tuple": lambda d: "(" * d + "x" + ",)" * d,
+    "call": lambda d: "f(" * d + "x" + ")" * d,
+    "unary-minus": lambda d: "-" * d + "x",
+    "unary-not": lambda d: "not " * d + "x",
+    "attribute": lambda d: "x" + ".a" * d,
+    "subscript": lambda d: "x" + "[0]" * d,
+    "call-chain": lambda d: "x" + "()" * d,
+    "sum": lambda d: "x" + " + x" * d,
+    "power": lambda d: "x" + " ** x" * d,
+    "compare": lambda d: "x" + " < x" * d,
+    "and": lambda d: "x" + " and x" * d,
+    "ternary": lambda d: "x if x else (" * d + "x" + ")" * d,
+    "ternary-flat": lambda d: "x if x else " * d + "x",
+    "lambda": lambda d: "lambda: " * d + "x",
+    "vector": lambda d: "x" + " @ x" * d,
+    "relative-to": lambda d: "x" + " relative to x" * d,
+    "visible": lambda d: "visible " * d + "x",
+    "distance-to": lambda d: "distance to " * d + "x",
+    "fstring": lambda d: ("f'{" * min(d, 5)) + "x" + ("}'" * min(d, 5)),
+}
+NESTING_POSITIONS = ["x = {e}", "require {e}", "ego = new Object at {e}", "behavior B():\n    take {e}", "f({e})", "x = [y for y in {e}]"]
+BLOCK_SHAPES = {
+    "if": "if x:", "while": "while x:", "for": "for y in x:", "def": "def f():", "class": "class C:", "with": "with x:",
+    "try": "try:", "behavior-if": None,
+}  # fmt: skip
+
+
+def literal_and_nesting_forms():
+    """-> [(origin, text)], all distinct."""
+    out, seen = [], set()
+
+    def add(origin, text):
+        if text not in seen:
+            seen.add(text)
+            out.append((origin, text))
+
+    for pos in NUMBER_POSITIONS:
+        for n in NUMBER_ALPHABET:
+            add("number:" + pos.split("\n")[-1].strip()[:24], pos.replace("{n}", n) + "\n")
+    for pos in STRING_POSITIONS:
+        for a in STRING_PREFIXES:
+            for b in STRING_PREFIXES:
+                add("strings:" + pos.split("\n")[-1].strip()[:24], pos.replace("{a}", a).replace("{b}", b) + "\n")
+    for shape, mk in NESTING_SHAPES.items():
+        for d in NESTING_DEPTHS:
+            for pos in NESTING_POSITIONS:
+                add(f"nesting:{shape}:{d}", pos.replace("{e}", mk(d)) + "\n")
+    for shape, head in BLOCK_SHAPES.items():
+        for d in NESTING_DEPTHS:
+            lines = []
+            if head is None:
+                lines.append("behavior B():")
+                for i in range(d):
+                    lines.append(" " * (i + 1) + "if x:")
+                lines.append(" " * (d + 1) + "wait")
+            else:
+                for i in range(d):
+                    lines.append(" " * i + head)
+                lines.append(" " * d + "pass")
+                if shape == "try":
+                    for i in reversed(range(d)):
+                        lines.append(" " * i + "finally:")
+                        lines.append(" " * (i + 1) + "pass")
+            add(f"nesting:block-{shape}:{d}", "\n".join(lines) + "\n")
+    return out
